@@ -216,12 +216,12 @@ func init() {
 	}
 
 	grids["C04"] = &gridDef{
-		explain: "one execution runs the real pipeline on the first m inputs and on all n inputs (same symbolic variables); the solver decides whether any output of the short run can differ from the same position of the long run; as the short run does not mention the later inputs this is exactly 'changing later inputs never changes earlier outputs'",
+		explain: "one execution runs the real pipeline on the first m inputs and on all n inputs (same symbolic variables); the solver decides whether any output of the short run can differ from the same position of the long run; as the short run does not mention the later inputs this is exactly 'changing later inputs never changes earlier outputs'; a second form (H_C04_Tail / H_C04S_Tail) runs the pipeline on two equally long inputs that share their first m positions and have independent symbolic values afterwards, and asserts equality of every output that belongs to a position < m (a look-ahead pipeline that merely emits fewer values when its input ends early passes the first form but not this one)",
 		bounds: func(t string) string {
 			if t == "thorough" {
 				return indBoundsT + "; every cut 1..dn; strategies: " + stratBounds
 			}
-			return indBoundsQ + " (dn 2..3, cuts 1..2); strategies: " + stratBounds + " (dn 2, cut 1; dn 3, cut 2)"
+			return indBoundsQ + " (dn 2..3, cuts 1..2; causality form dn 2 cut 1, dn 3 cut 2, not for the window-ordering-heavy entries); strategies: " + stratBounds + " (dn 2, cut 1; dn 3, cut 2; both forms, causality form not for heavy entries)"
 		},
 		outside:     "longer inputs, larger periods; compound/decorated strategies (their combinators are position-wise functions: C07)",
 		assumptions: append([]string{realModeNote}, commonAssumptions...),
@@ -243,13 +243,26 @@ func init() {
 							out = append(out, csi("H_C04", s, cfg, d, cut))
 						}
 					}
+					// causality form: two equally long inputs that differ only after position m
+					if !s.heavy || tier == "thorough" {
+						out = append(out, csi("H_C04_Tail", s, cfg, 2, 1))
+					}
+					if !s.heavy && dn >= 3 {
+						out = append(out, csi("H_C04_Tail", s, cfg, 3, 2))
+					}
 				}
 			}
 			for _, s := range stratSpecs {
 				for _, cfg := range s.cfgs {
 					out = append(out, css("H_C04S", s, cfg, 2, 1))
+					if !s.heavy || tier == "thorough" {
+						out = append(out, css("H_C04S_Tail", s, cfg, 2, 1))
+					}
 					if !s.heavy {
 						out = append(out, css("H_C04S", s, cfg, 3, 2))
+						if !strings.HasPrefix(s.name, "Comp") || tier == "thorough" {
+							out = append(out, css("H_C04S_Tail", s, cfg, 3, 2))
+						}
 					}
 				}
 			}
@@ -314,6 +327,15 @@ func init() {
 			for _, s := range stratSpecs {
 				for ci, cfg := range s.cfgs {
 					if s.nonlin && ci > 0 && tier != "thorough" {
+						if s.name == "MoneyFlowIndex" {
+							// a period of one is degenerate for a ratio of windowed sums: the quick
+							// tier also scales prices (x2) and volumes (x2) at period two
+							for _, which := range []int{0, 2} {
+								c := css("H_C18S", s, cfg, 1, which)
+								c.MaxWallS = 240
+								out = append(out, c)
+							}
+						}
 						continue
 					}
 					if s.name == "Tsi" && tier != "thorough" {
@@ -351,9 +373,9 @@ func init() {
 		explain: "every indicator and strategy pipeline (and the Report pipelines, and the vote combinators over stub strategies) is executed with one producer goroutine per input (channel capacity a grid parameter), one independent reader per output; on every data path the run must end with all outputs closed and no goroutine left (outcome done; deadlock / leak / panic are violations with a native replay); the executor logs every channel operation, close, go, WaitGroup operation and shared-memory access with the Go-memory-model edges and the solver (QF_IDL) shows that no conflicting pair can be reordered: the outcome and all values then hold for every interleaving, GOMAXPROCS and pacing (first-divergence lemma, DESIGN.md 2.6)",
 		bounds: func(t string) string {
 			if t == "thorough" {
-				return indBoundsT + "; n in {0,1,w-1,w,w+1,w+2,w+3}; input capacity 0,1,2,5; unequal input lengths n-1/n/n+1 for multi-input indicators; strategies: " + stratBounds + " incl. default configurations; combinators over 2-3 stubs emitting n-1/n/n+1 actions"
+				return indBoundsT + "; n in {0,1,w-1,w,w+1,w+2,w+3}; input capacity 0,1,2,5; unequal input lengths n-1/n/n+1 for multi-input indicators; strategies: " + stratBounds + " incl. default configurations; combinators over 2-3 stubs emitting n-1/n/n+1 actions; one @zeroden1 case (n = w+2: one division per path may have a zero denominator, the value is then the IEEE special) per non-heavy indicator / strategy"
 			}
-			return indBoundsQ + "; n in {0,1,w,w+1,w+2}; input capacity 0,1,2; unequal input lengths for multi-input indicators; strategies: " + stratBounds + "; combinators over 2 stubs emitting n-1/n/n+1 actions"
+			return indBoundsQ + "; n in {0,1,w,w+1,w+2}; input capacity 0,1,2; unequal input lengths for multi-input indicators; strategies: " + stratBounds + "; combinators over 2 stubs emitting n-1/n/n+1 actions; one @zeroden1 case (n = w+2: one division per path may have a zero denominator, the value is then the IEEE special) per non-heavy indicator / strategy"
 		},
 		outside:     "consumers that abandon an output (the property presupposes draining); select/len(chan) (absent from the module, re-checked on every run: coverage.module_has_select); larger configurations",
 		assumptions: append([]string{realModeNote, "lemma: a maximal execution without unordered conflicting pair determines every other execution (DPOR/Kahn first divergence); memory model edges: program order, go->start, send->receive, k-th receive -> (k+cap)-th send, close->receive-of-closed, Done->Wait, Unlock->Lock"}, commonAssumptions...),
@@ -383,10 +405,16 @@ func init() {
 					}
 				}
 				mp, _ := s.lim(o)
-				for _, cfg := range s.configs(mp) {
+				for ci, cfg := range s.configs(mp) {
 					w, ok := pr.idle(s.name, cfg)
 					if !ok {
 						continue
+					}
+					if ci == 0 && !s.heavy {
+						// the same pipeline when one executed division has a zero denominator (NaN / Inf values)
+						c := csi("H_C03", s, cfg, w+2, 0, 0)
+						c.ZeroDen = 1
+						add(c)
 					}
 					ns := []int{0, 1, w, w + 1, w + 2}
 					if tier == "thorough" {
@@ -444,6 +472,10 @@ func init() {
 					add(css("H_C03S_Report", s, cfg, w+1, 0))
 					if !s.heavy {
 						add(css("H_C03S_Report", s, cfg, w+2, 1))
+						// the same pipeline when an indicator value is NaN / Inf (one zero denominator)
+						c := css("H_C03S", s, cfg, 0, w+2, 0)
+						c.ZeroDen = 1
+						add(c)
 					}
 				}
 			}
